@@ -320,6 +320,11 @@ def d4_lineage(chk, F):
             e = resolve(ff, d[fld])
             t = full(e)
             ok = f"into_iter(self.{fld})" in t and not any(o != fld and f"self.{o}" in t for o in ("ingredients", "cookware", "timers"))
+            if not ok and name == "default_scale" and not any(o != fld and f"self.{o}" in t for o in ("ingredients", "cookware", "timers")):
+                # through a helper that maps the vector element-wise: a user function that receives self.<fld> and reaches Scale::default_scale
+                from cfgq import calls_reaching
+                rb = set(calls_reaching(F, ff, "scale::Scale>::default_scale")) | set(calls_reaching(F, ff, "scale::Scale::default_scale"))
+                ok = any(n[0] == "call" and n[3] in rb and any(f"self.{fld}" == full(a) for a in n[2]) for n in walk(e))
             chk.expect(ok, "C08.D4-lineage", f"{name}|{fld}", where, f"{name}() builds `{fld}` from {t[:100]}", sample=f"{name}: {fld} ← map over self.{fld}")
             if name == "scale":
                 fits = False
